@@ -149,10 +149,10 @@ for tr, m, op in [('Add', 'add', 'BinOp::Add'), ('Sub', 'sub', 'BinOp::Sub'), ('
 ITEMS += [
     Item(id='dumb_rational_div_floor', source=S, locator='fn dumb_rational_div_floor',
          requires=[('divisor_nonzero', 'b@ != 0real')],
-         ensures=[('floor_of_exact_quotient', 'r@ == (a@ / b@).floor() as real')], props=P7),
+         ensures=[('floor_of_exact_quotient', 'r@ == ir((a@ / b@).floor())')], props=P7),
     Item(id='dumb_rational_mod_floor', source=S, locator='fn dumb_rational_mod_floor',
          requires=[('divisor_nonzero', 'b@ != 0real')],
-         ensures=[('floor_remainder', 'r@ == a@ - b@ * ((a@ / b@).floor() as real)')], props=P7),
+         ensures=[('floor_remainder', 'r@ == a@ - b@ * ir((a@ / b@).floor())')], props=P7),
     Item(id='dumb_complex_div_floor', source=S, locator='fn dumb_complex_div_floor', no_body_check=True,
          ensures=[('uninterpreted', 'r == c_div_floor(a, b)')], props=[]),
     Item(id='div_floor', source=S, frm='expanded', locator=M + 'impl NNum / fn div_floor',
@@ -179,7 +179,7 @@ ITEMS += [
          ensures=[('value', 'r@ == (match self@ { NumV::Int(i) => NumV::Int(int_not(i)), _ => NumV::Flt(F_NAN()) })')], props=P67),
     Item(id='pow_big_ints', source=S, locator='fn pow_big_ints',
          ensures=[('nonnegative_exponent_exact_int', 'b@ >= 0 ==> r@ == NumV::Int(int_pow(a@, b@ as nat))'),
-                  ('negative_exponent_exact_reciprocal', '(b@ < 0 && a@ != 0) ==> r@ == NumV::Rat(1real / (int_pow(a@, (-b@) as nat) as real))'),
+                  ('negative_exponent_exact_reciprocal', '(b@ < 0 && a@ != 0) ==> r@ == NumV::Rat(1real / ir(int_pow(a@, (-b@) as nat)))'),
                   ('zero_to_negative_power_is_float_like_one_over_zero', '(b@ < 0 && a@ == 0) ==> r@ is Flt')],
          props=P67),
     # float / complex powers: only the level of the result is claimed (float arithmetic is uninterpreted)
@@ -192,7 +192,7 @@ ITEMS += [
          ensures=[('float_or_complex', 'level(r@) >= 2')], props=P7),
     Item(id='pow_num', source=S, locator='impl NNum / fn pow_num', subst=SUB_CONSTS,
          ensures=[('int_to_nonnegative_int_exact', '(self@ is Int && other@ is Int && other@->Int_0 >= 0) ==> r@ == NumV::Int(int_pow(self@->Int_0, other@->Int_0 as nat))'),
-                  ('int_to_negative_int_exact_reciprocal', '(self@ is Int && other@ is Int && other@->Int_0 < 0 && self@->Int_0 != 0) ==> r@ == NumV::Rat(1real / (int_pow(self@->Int_0, (-other@->Int_0) as nat) as real))'),
+                  ('int_to_negative_int_exact_reciprocal', '(self@ is Int && other@ is Int && other@->Int_0 < 0 && self@->Int_0 != 0) ==> r@ == NumV::Rat(1real / ir(int_pow(self@->Int_0, (-other@->Int_0) as nat)))'),
                   ('rational_to_int_exact', '(self@ is Rat && other@ is Int && !(self@->Rat_0 == 0real && other@->Int_0 < 0)) ==> r@ == NumV::Rat(rat_pow(self@->Rat_0, other@->Int_0))'),
                   ('zero_to_negative_power_is_float', '(other@ is Int && other@->Int_0 < 0 && level(self@) <= 1 && to_rat(self@) == 0real) ==> r@ is Flt'),
                   ('otherwise_float_or_complex', '(level(self@) >= 2 || level(other@) >= 1) ==> level(r@) >= 2')],
